@@ -303,8 +303,18 @@ def cosim_one(args):
                 except amqpstorm.AMQPMessageError:
                     pass
                 amqpstorm.channel.time.sleep(0.003)
+        def late_consumer():
+            # a second consumer is registered on channel 0 while its consuming thread is busy; the queue already holds
+            # messages, so the first delivery follows the ConsumeOk at once
+            amqpstorm.channel.time.sleep(0.01)
+            for k in range(3):
+                broker.queues['lq'].append((spec.Basic.Properties(message_id='late%d' % k), b'L' * (k * 40), '', 'lq'))
+            chans[0].basic.consume(lambda m: received[0].append((m.method['consumer_tag'], m.method['delivery_tag'], m._body,
+                                                                 m.properties.get('message_id'))), 'lq', consumer_tag='late', no_ack=True)
         cons = [ctx.spawn(consumer(i), 'consumer%d' % i) for i in range(sc['nchan'])]
         ts = [ctx.spawn(feeder, 'feeder'), ctx.spawn(rpc_caller, 'rpc'), ctx.spawn(returner, 'returner')]
+        if sc.get('late') and sc['mode'] == 'callback':
+            ts.append(ctx.spawn(late_consumer, 'late-consumer'))
         for t in ts:
             ctx.join(t)
         ctx.quiesce()
@@ -360,7 +370,12 @@ def check(rep):
     for _ in range(60 if not thorough else 1500):
         jobs.append(({'nchan': rng.randint(1, 2), 'mode': rng.choice(['callback', 'generator']), 'messages': rng.randint(4, 14),
                       'sizes': [rng.choice([0, 1, 100, 4088, 4089, 9000]) for _ in range(3)], 'split': rng.choice([None, 50, 1000]),
-                      'rpcs': rng.randint(0, 4), 'returns': rng.randint(0, 3)}, rng.randrange(1 << 30)))
+                      'rpcs': rng.randint(0, 4), 'returns': rng.randint(0, 3), 'late': rng.random() < 0.3}, rng.randrange(1 << 30)))
+    # a consumer added while the channel is being consumed (queue with a backlog), fair time, heavy pre-emption is in C14;
+    # here: a few such runs judged by C03's own oracle (every delivery exactly once, in order)
+    for _ in range(40 if not thorough else 600):
+        jobs.append(({'nchan': 1, 'mode': 'callback', 'messages': rng.randint(2, 6), 'sizes': [rng.choice([0, 1, 100]) for _ in range(3)],
+                      'split': None, 'rpcs': 0, 'returns': 0, 'late': True}, rng.randrange(1 << 30) | 1))
     for (sc, seed), r in zip(jobs, par.pmap(cosim_one, jobs)):
         rep.case(('cosim', repr(sc), seed), (sc['returns'] > 0 or sc['rpcs'] > 0) and r['preemptions'] > 0,
                  sample={'cosim': sc, 'received': r.get('received')})
